@@ -237,6 +237,45 @@ static std::string cb_op(rlbox::rlbox_sandbox<Sbx>& sb, const std::string& op, i
 
 template<typename Sbx>
 struct AbiRunner {
+  // mixed-type raw store: field type T (destination in sandbox memory), value type U
+  template<typename T, typename U> std::string storex_one(i128 v)
+  {
+    using G = typename rlbox::rlbox_sandbox<Sbx>::template convert_to_sandbox_equivalent_nonclass_t<T>;
+    if (!representable<U>(v)) return "badinput";
+    if (sb.get_sandbox_impl()->brk > (1u << 15)) sb.get_sandbox_impl()->brk = 16; // recycle the bump arena
+    return guarded([&]() -> std::string {
+      auto p = sb.template malloc_in_sandbox<T>();
+      void* raw = p.UNSAFE_unverified();
+      std::memset(raw, 0xAB, sizeof(G));
+      *p = (U)v;
+      return "ok guest=" + to_dec(read_guest<G>(raw));
+    });
+  }
+  template<typename T> std::string storex_u(const std::string& u, i128 v)
+  {
+    if (u == "schar") return storex_one<T, signed char>(v);
+    if (u == "uchar") return storex_one<T, unsigned char>(v);
+    if (u == "short") return storex_one<T, short>(v);
+    if (u == "int") return storex_one<T, int>(v);
+    if (u == "uint") return storex_one<T, unsigned int>(v);
+    if (u == "long") return storex_one<T, long>(v);
+    if (u == "ulong") return storex_one<T, unsigned long>(v);
+    if (u == "llong") return storex_one<T, long long>(v);
+    return "badop";
+  }
+  std::string storex(const std::string& t, const std::string& u, i128 v)
+  {
+    if (t == "schar") return storex_u<signed char>(u, v);
+    if (t == "uchar") return storex_u<unsigned char>(u, v);
+    if (t == "short") return storex_u<short>(u, v);
+    if (t == "ushort") return storex_u<unsigned short>(u, v);
+    if (t == "int") return storex_u<int>(u, v);
+    if (t == "uint") return storex_u<unsigned int>(u, v);
+    if (t == "long") return storex_u<long>(u, v);
+    if (t == "ulong") return storex_u<unsigned long>(u, v);
+    return "badop";
+  }
+
   rlbox::rlbox_sandbox<Sbx> sb;
   using OpFn = std::string (*)(rlbox::rlbox_sandbox<Sbx>&, const std::string&, i128);
   OpFn path[NB]; OpFn cb[NB];
@@ -296,6 +335,14 @@ int main()
       return tab_scan[to][fr](parse_dec(t[3]), parse_dec(t[4]));
     }
 #else
+    // tvstore_x <abi> <T> <U> <v>: `tainted_volatile<T> = (U)v` for mixed integer types
+    if (op == "tvstore_x" && t.size() == 5) {
+      auto run = [&](auto& runner) -> std::string { return runner.storex(t[2], t[3], parse_dec(t[4])); };
+      if (t[1] == "A") return run(ra);
+      if (t[1] == "B") return run(rb);
+      if (t[1] == "C") return run(rc);
+      return "badop";
+    }
     // <op> <abi> <basety> <v>
     if (t.size() == 4) {
       int ty = -1;
